@@ -224,6 +224,20 @@ def run_rows(desc, tier, seed, res):
                         res.observe(f"{row.kind}-command-under-foreign-device-type-decodes-as-{type(b2).__name__}", row.lib)
                 except Exception as e:
                     res.observe(f"decode-under-foreign-device-type-raises-{type(e).__name__}", row.lib)
+            # the tables give a no-parameter special command one frame: the same address byte(s) with other data is another,
+            # unassigned frame - not this command (its re-encoding would differ from what was on the bus)
+            if row.kind in ("spc0", "dsp0") and n_args <= 2:
+                for xx in (0x01, 0x55, 0x80, 0xFF):
+                    res.hit("unassigned_neighbours_checked")
+                    try:
+                        nb = command.from_frame(frame.ForwardFrame(row.width, want | xx), devicetype=row.dt)
+                    except Exception as e:
+                        res.violation(f"C03/decode-raised/{row.lib}", f"decoding {want | xx:#x} raised {type(e).__name__}", {"row": row.lib, "frame": want | xx})
+                        break
+                    if type(nb) is cls:
+                        res.violation(f"C03/unassigned-frame-decodes-as/{row.lib}", f"{want | xx:#x} decodes as {row.name} ({nb}); the table assigns "
+                                      f"that name to {want:#x} only", {"row": row.lib, "frame": want | xx})
+                        break
             ba = args_of(back)
             exp = dict(ref_args)
             if row.kind == "init":
